@@ -158,7 +158,7 @@ def run(scn, n):
         cfg = make_cfg('async' if zlib.crc32(json.dumps(scn, sort_keys=True).encode()) % 2 else 'sync')    # by content, not by position
         log = Log()
         h = zlib.crc32(json.dumps(scn, sort_keys=True).encode())
-        cfg['_perrcls'] = (h // 2) % 3
+        cfg['_perrcls'] = (h // 2) % 4
         if (h // 6) % 2:
             # re-entrant use (variant by content): every execution of m_ok dispatches another corpus entry on the same
             # dispatcher before it returns; inner and outer dispatches are validated each on its own
